@@ -198,3 +198,46 @@ Proof.
   intros Hok Hord Hnd f Hin. rewrite extract_as_fold by auto. apply fold_get_in; auto.
 Qed.
 Print Assumptions extract_body.
+
+(* placeholders: a field whose trimmed value is empty, ?, ?, or (null) leaves no entry at all *)
+Definition is_dropped (f : str * fval) : bool := placeholder (trim_qs (text_of (snd f))).
+Lemma ordinary_not_dropped f : field_ok f -> ordinary f -> is_dropped f = false.
+Proof. intros (_ & _ & Hv) (_ & Hp & Hvo). unfold is_dropped. rewrite (trim_text _ Hv Hvo). exact Hp. Qed.
+Lemma extract_fold_acc_dropping d : forall l acc, Forall field_ok l -> Forall (fun f => ordinary f \/ is_dropped f = true) l ->
+  fold_left (fun a kv => let '(k, orig) := kv in let v := trim_qs orig in
+                         if placeholder v then a
+                         else if isS k "msg" then fold_left (fun a' e => kv_add (fst e) (snd e) a') (rev (extract d v [])) a
+                         else kv_add k (orig, v) a)
+            (map (fun f => (fst f, text_of (snd f))) l) acc
+  = fold_left (fun a f => kv_add (fst f) (text_of (snd f), value_of (snd f)) a) (filter (fun f => negb (is_dropped f)) l) acc.
+Proof.
+  induction l as [|g l IH]; intros acc H1 H2; cbn [map fold_left filter]; auto.
+  inversion H1 as [|? ? Hg H1']; inversion H2 as [|? ? Hc H2']; subst. destruct Hc as [Ho|Hd].
+  - rewrite (ordinary_not_dropped _ Hg Ho). cbn [negb fold_left]. destruct Hg as (Hk & Hkey & Hv). destruct Ho as (Hm & Hp & Hvo).
+    rewrite (trim_text _ Hv Hvo), Hp, Hm. apply IH; auto.
+  - rewrite Hd. cbn [negb]. unfold is_dropped in Hd. rewrite Hd. apply IH; auto.
+Qed.
+Theorem placeholders_dropped d fs : Forall field_ok fs -> Forall (fun f => ordinary f \/ is_dropped f = true) fs ->
+  extract (S d) (body fs) [] =
+  fold_left (fun a f => kv_add (fst f) (text_of (snd f), value_of (snd f)) a) (filter (fun f => negb (is_dropped f)) fs) [].
+Proof. intros Hok Hc. cbn [extract]. rewrite (body_tokenised fs Hok). apply extract_fold_acc_dropping; auto. Qed.
+(* so a key that only ever appears with a placeholder value is absent, and an ordinary field is still found *)
+Theorem placeholder_key_absent d fs k : Forall field_ok fs -> Forall (fun f => ordinary f \/ is_dropped f = true) fs ->
+  (forall f, In f fs -> fst f = k -> is_dropped f = true) -> kv_get k (extract (S d) (body fs) []) = None.
+Proof.
+  intros Hok Hc Hk. rewrite placeholders_dropped by auto.
+  set (fs' := filter (fun f => negb (is_dropped f)) fs).
+  assert (Hok': Forall field_ok fs'). { apply Forall_forall. intros f Hf. apply filter_In in Hf. rewrite Forall_forall in Hok. apply Hok. tauto. }
+  assert (Hord': Forall ordinary fs').
+  { apply Forall_forall. intros f Hf. apply filter_In in Hf. destruct Hf as [Hin Hn]. rewrite Forall_forall in Hc.
+    destruct (Hc f Hin) as [Ho|Hd]; auto. rewrite Hd in Hn. discriminate. }
+  rewrite fold_fields; auto.
+  intros Hin. apply in_map_iff in Hin. destruct Hin as (f & Hf & Hin). apply filter_In in Hin. destruct Hin as [Hin Hn].
+  rewrite (Hk f Hin Hf) in Hn. discriminate.
+Qed.
+Example placeholders_dropped_example :
+  extract 2 (body [(L "pid", Plain (L "1")); (L "hostname", Plain (L "?")); (L "exe", Quoted []); (L "addr", Plain (L "(null)"))]) []
+  = [(L "pid", (L "1", L "1"))].
+Proof. vm_compute. reflexivity. Qed.
+Print Assumptions placeholders_dropped.
+Print Assumptions placeholder_key_absent.
